@@ -158,6 +158,7 @@ func (visitor) Visit(n ast.Node) ast.Visitor {
 		return nil
 	case *ast.SelectStmt:
 		walkClauses(v.Body)
+		prioritiseDone(v)
 		return nil
 	case *ast.BlockStmt:
 		// children first (on the original statements), then insert.
@@ -168,6 +169,52 @@ func (visitor) Visit(n ast.Node) ast.Visitor {
 		return nil
 	}
 	return visitor{}
+}
+
+// prioritiseDone removes the one random choice the Go runtime makes on behalf
+// of instrumented code: a select with several READY cases picks one at random
+// from a source no simulator can seed. That only happens here when a context
+// is already cancelled on entry while another case is ready too. The select
+//
+//	select { case <-ctx.Done(): A; case ch <- v: B }
+//
+// becomes
+//
+//	select { case <-ctx.Done(): A; default: select { case <-ctx.Done(): A; case ch <- v: B } }
+//
+// i.e. one of the legal outcomes (cancellation wins) is always taken.
+func prioritiseDone(sel *ast.SelectStmt) {
+	var done *ast.CommClause
+	for _, c := range sel.Body.List {
+		cc := c.(*ast.CommClause)
+		if cc.Comm == nil {
+			return // already has a default
+		}
+		var rx ast.Expr
+		switch s := cc.Comm.(type) {
+		case *ast.ExprStmt:
+			rx = s.X
+		case *ast.AssignStmt:
+			if len(s.Rhs) == 1 {
+				rx = s.Rhs[0]
+			}
+		}
+		if ue, ok := rx.(*ast.UnaryExpr); ok && ue.Op == token.ARROW {
+			if ce, ok := ue.X.(*ast.CallExpr); ok {
+				if se, ok := ce.Fun.(*ast.SelectorExpr); ok && se.Sel.Name == "Done" {
+					done = cc
+				}
+			}
+		}
+	}
+	if done == nil || len(sel.Body.List) < 2 {
+		return
+	}
+	inner := &ast.SelectStmt{Body: &ast.BlockStmt{List: sel.Body.List}}
+	sel.Body = &ast.BlockStmt{List: []ast.Stmt{
+		&ast.CommClause{Comm: done.Comm, Body: done.Body},
+		&ast.CommClause{Comm: nil, Body: []ast.Stmt{inner}},
+	}}
 }
 
 // walkClauses instruments the bodies of case/comm clauses; the enclosing block
@@ -362,6 +409,29 @@ func addImport(f *ast.File, syncUnused bool) {
 // instrumentFile inserts yields, goroutine announcements and sim mutexes.
 func instrumentFile(f *ast.File) {
 	usesSync := false
+	// runtime.GOMAXPROCS(0) is a configuration the engine reads (width of the
+	// planner's fan-out): route it through the simulator so that it is a
+	// per-run knob instead of a property of the machine.
+	ast.Inspect(f, func(n ast.Node) bool {
+		ce, ok := n.(*ast.CallExpr)
+		if !ok || len(ce.Args) != 1 {
+			return true
+		}
+		se, ok := ce.Fun.(*ast.SelectorExpr)
+		if !ok || se.Sel.Name != "GOMAXPROCS" {
+			return true
+		}
+		if id, ok := se.X.(*ast.Ident); !ok || id.Name != "runtime" {
+			return true
+		}
+		if bl, ok := ce.Args[0].(*ast.BasicLit); !ok || bl.Value != "0" {
+			return true
+		}
+		inner := &ast.CallExpr{Fun: ce.Fun, Args: ce.Args}
+		ce.Fun = &ast.SelectorExpr{X: ast.NewIdent("xsim"), Sel: ast.NewIdent("Procs")}
+		ce.Args = []ast.Expr{inner}
+		return false
+	})
 	ast.Inspect(f, func(n ast.Node) bool {
 		if se, ok := n.(*ast.SelectorExpr); ok {
 			if id, ok := se.X.(*ast.Ident); ok && id.Name == "sync" && id.Obj == nil {
